@@ -28,9 +28,9 @@ COMPOSE_MIN_THEOREMS = 11
 EXTRA_MODULES = [('MpVerif.C01.PropsCompose', 'MpVerif/C01/PropsCompose.lean', COMPOSE_MIN_THEOREMS),
                  ('MpVerif.C01.PropsCtxGen', 'MpVerif/C01/PropsCtxGen.lean', 11),
                  ('MpVerif.C01.PropsObjective', 'MpVerif/C01/PropsObjective.lean', 9),
-                 ('MpVerif.C01.PropsGenTie', 'MpVerif/C01/PropsGenTie.lean', 31),
+                 ('MpVerif.C01.PropsGenTie', 'MpVerif/C01/PropsGenTie.lean', 32),
                  # round 5: the reference converter is correct (C01_convert_equiv / _objective)
-                 ('MpVerif.C01.PropsConvert', 'MpVerif/C01/PropsConvert.lean', 5),
+                 ('MpVerif.C01.PropsConvert', 'MpVerif/C01/PropsConvert.lean', 7),
                  # statement audit (round 4): non-vacuity instances only, no C01_ theorems of its own
                  ('MpVerif.C01.PropsAudit', 'MpVerif/C01/PropsAudit.lean', 0)]
 
@@ -1124,11 +1124,11 @@ def report(ck, res):
                          found_input=False)
     rcv = res.get('refconv') or {}
     ck.cov['reference_converter_tie'] = {k: v for k, v in rcv.items() if k not in ('violations',)}
-    for sig, what, ex in rcv.get('violations', []):
+    for v in rcv.get('violations', []):
         rep = {'stream': 'c01_refconv', 'how': 'pipe the op line to lean/.lake/build/bin/drv_c01; the same model is written by '
                'checks/c01_refconv.py build() and run through recsolver with RECSOLVER_ACCEPT = NATIVE|LINEAR (flat model: FLAT)'}
-        rep.update(ex)
-        ck.add_violation(sig, what, rep, found_input=sig.startswith('refconv-property'))
+        rep.update(v['replay'] or {})
+        ck.add_violation(v['sig'], v['what'], rep, found_input=v['found'])
     if not res.get('proof_ok', True):
         for fdecl in res.get('failing', []):
             ck.add_violation('obligation:%s' % fdecl, 'proof obligation no longer checks: %s' % fdecl,
@@ -1377,10 +1377,12 @@ def run_gadgets(ck, n_cases=None, proof=True):
     # round 5: the Lean reference converter `convert` against the real converter on generated models of its fragment
     try:
         import c01_refconv
-        nrc = 120 if ck.tier == 'quick' else 1200
+        nrc = 150 if ck.tier == 'quick' else 1500
         res['refconv'] = c01_refconv.run_refconv(ck, drv, exe, nrc, ck.seed, wd)
     except Exception as ex:
-        res['refconv'] = {'harness_exception': repr(ex)[:300], 'violations': [('refconv-harness', 'harness exception %r' % (ex,), {})]}
+        import traceback
+        res['refconv'] = {'harness_exception': repr(ex)[:300], 'violations': [{'sig': 'refconv-harness', 'what': 'harness exception %r' % (ex,),
+                                                                               'replay': {'traceback': traceback.format_exc()[-1500:]}, 'found': False}]}
     drv.close()
     stats['model_arms'] = dict(sorted(MODEL_ARMS.items()))
     res['disagreements'] = dis
@@ -1395,13 +1397,17 @@ def run_gadgets(ck, n_cases=None, proof=True):
     ck.log('  hit: ' + ', '.join('%s:%d' % kv for kv in sorted(stats['hit'].items())))
     rcv = res.get('refconv') or {}
     if 'compared' in rcv:
-        ck.log('  reference converter `convert` vs real converter: %d fragment models; %d (model, acceptance set) comparisons not flagged as '
-               'shortcut by the reference: %d agree (%.0f%%; native %s, linear %s; %d delivered rows, %d with auxiliary variables), %d refusals on '
-               'both sides, %d disagreements (%d of them drift: real delivered model passes the exact oracle); flagged as shortcut: %d, '
-               'of which %d agree all the same'
-               % (rcv['models'], rcv['compared'], rcv['agree'], 100.0 * rcv['agree'] / max(1, rcv['compared']),
-                  '%d/%d' % tuple(rcv['by_acc']['native']), '%d/%d' % tuple(rcv['by_acc']['linear']), rcv['rows_compared'], rcv['with_aux_vars'],
-                  rcv['refusal_agree'], rcv['disagree'], rcv['drift'], rcv['shortcut'], rcv['flagged_agree']))
+        ck.log('  reference converter `convert` vs real converter: %d fragment models = %d (model, acceptance set) pairs; ENFORCED %d (%.1f%%, floor %.0f%%): '
+               '%d compared of which %d agree (native %s, linear %s; %d delivered rows, %d with auxiliary variables), %d refusals of the reference of which '
+               '%d matched by a refusal of the real converter, %d disagreements (%d drift); FLAGGED shortcut by the reference %d: %d agree anyway, %d differ, '
+               'exact oracle run on %d of those, %d fail; outside the fragment predicate %d'
+               % (rcv['models'], rcv['pairs'], rcv['enforced'], 100.0 * rcv['enforced'] / max(1, rcv['pairs']), 100 * rcv['enforced_floor'],
+                  rcv['compared'], rcv['agree'], '%d/%d' % tuple(rcv['by_acc']['native']), '%d/%d' % tuple(rcv['by_acc']['linear']),
+                  rcv['rows_compared'], rcv['with_aux_vars'], rcv['ref_refusal'], rcv['refusal_agree'], rcv['disagree'], rcv['drift'],
+                  rcv['shortcut'], rcv['flagged_agree'], rcv['flagged_differ'], rcv['flagged_oracle_runs'], rcv['flagged_oracle_fail'],
+                  rcv['outside_fragment_predicate'] + rcv['outside']))
+        ck.log('    flagged by clause of the reference converter (a pair can have several): ' + ', '.join('%s:%d' % kv for kv in sorted(rcv.get('flagged_why', {}).items())))
+        ck.log('    by family: ' + '; '.join('%s: %s' % (f, ', '.join('%s %d' % kv for kv in d.items())) for f, d in rcv['by_family'].items()))
         ck.log('    definition kinds in compared models: ' + ', '.join('%s:%d' % kv for kv in sorted(rcv['def_kinds'].items())))
         for k, v in sorted(rcv['classes'].items()):
             ck.log('    disagreement class %s: %d' % (k, v))
